@@ -7,7 +7,13 @@
  *   run  <tree>     interpret in this process
  *   fork <tree>     interpret in a forked child (for trees whose exception escapes everything);
  *                   the child's trace is relayed, followed by
- *                   "child exit=<n> sig=<n> uncaught=<Name|->"
+ *                   "child exit=<n> sig=<n> uncaught=<Name|->"  (preceded by "child-sanitizer-report" when the
+ *                   child's stderr holds a sanitizer report, which also exits with status 1)
+ *
+ *   trun <hold> <tree>    interpret in a fresh Cello Thread (new_raw(Thread, fn); call; join) while the calling
+ *   tfork <hold> <tree>   thread sits inside <hold> open catch-all try blocks of its own; same trace lines (the
+ *                   thread's own depth starts at 0).  "main-handler-ran" / "main-depth-changed" are never expected:
+ *                   the blocks of another thread do not enclose the thread's code.
  *
  * Tree, prefix notation, blank separated:
  *   S <n> <tree>*n                      sequence
@@ -16,7 +22,15 @@
  *                                       the kinds of one filter are pairwise distinct (a filter is a set).
  *                                       One real try/catch site per arity (try0..try3); nesting through
  *                                       these is dynamic (real recursion of run()).
+ *   N <id0> <cnt> <nf> <kind>*nf <body> <handler>
+ *                                       cnt (1..2040) try blocks nested directly inside one another (dynamic
+ *                                       nesting through the same real sites), ids id0 (outermost) .. id0+cnt-1, all
+ *                                       with the same filter and the same handler subtree; T is N with cnt = 1.
+ *                                       nf is 0..3, 5 or 8 (one real site per arity).
  *   X <kind>                            throw(K[kind], ...)
+ *   Y <kind> <how>                      other ways of raising K[kind]: how 1 = raised by a library function called
+ *                                       here (get of a missing key, cast, bad index ...; kinds 0-3 and 7-9 only),
+ *                                       how 2 / 3 = throw with a 300 / 6000 character message argument
  *   C <tree>                            real, non-inlined function call around the subtree
  *   M <id>                              print a mark
  *   L <t> <ids> <filters> <slots>       hand-written template t (1..4) with 2-3 LEXICALLY nested try
@@ -24,13 +38,14 @@
  *                                       A slot that is a plain `X k` throws lexically inside the
  *                                       template function, anything else is interpreted by run().
  * kinds: 0 TypeError 1 KeyError 2 ValueError 3 IOError 4 UserExc 5 UserExcEOF 6 User (static user type objects, names related by prefix)
+ *        7 IndexOutOfBoundsError 8 ClassError 9 FormatError
  *
  * Trace lines:
  *   begin <depth> | end <depth>         around each tree (depth = len(current(Exception)))
  *   pre <id> <depth> | post <id> <depth> before / after (normal completion of) each try/catch construct
  *   mark <id>
  *   handler <id> <Name> <same>          handler of try <id> entered; Name of the bound object (by identity
- *                                       against the five known objects, '?' otherwise); same = bound object
+ *                                       against the known objects, '?' otherwise); same = bound object
  *                                       is the object passed to the last throw
  *   throw-returned                      throw() came back to its caller (never expected)
  */
@@ -46,15 +61,18 @@
 #endif
 
 enum { N_SEQ, N_TRY, N_THROW, N_CALL, N_MARK, N_TMPL };
-enum { NKINDS = 7 };
+enum { NKINDS = 10 };
+enum { MAXF = 8 };
 
 typedef struct Node Node;
 struct Node {
   int kind;
   int id[3];        /* try ids (Try: id[0]; template: one per lexical level); Mark: id[0] */
   int nf[3];        /* filter arity per level */
-  int f[3][3];      /* filter kinds per level */
+  int f[3][MAXF];   /* filter kinds per level */
   int k;            /* Throw: kind; Template: template number */
+  int cnt;          /* Try: number of directly nested levels (1 for T) */
+  int how;          /* Throw: 0 plain, 1 raised by a library call, 2/3 long message */
   int nkid;
   Node** kid;
 };
@@ -64,7 +82,8 @@ static var UserExc = CelloEmpty(UserExc);
 static var UserExcEOF = CelloEmpty(UserExcEOF);
 static var User = CelloEmpty(User);
 static var K[NKINDS];
-static const char* KN[NKINDS] = { "TypeError", "KeyError", "ValueError", "IOError", "UserExc", "UserExcEOF", "User" };
+static const char* KN[NKINDS] = { "TypeError", "KeyError", "ValueError", "IOError", "UserExc", "UserExcEOF", "User",
+                                   "IndexOutOfBoundsError", "ClassError", "FormatError" };
 
 static var last_thrown = NULL;
 static int in_child = 0;
@@ -83,6 +102,7 @@ static const char* kname(var e) {
   return "?";
 }
 
+/* ids are evaluated before anything can longjmp; (ID) expressions only read the node and the level argument */
 #define PRE(ID)        emitf("pre %d %d\n", (ID), exc_depth())
 #define POST(ID)       emitf("post %d %d\n", (ID), exc_depth())
 #define HANDLER(ID, E) emitf("handler %d %s %d\n", (ID), kname(E), (int)((E) is last_thrown))
@@ -130,8 +150,11 @@ static Node* parse(void) {
       for (int i = 0; i < n->nkid; i++) { n->kid[i] = parse(); }
       break;
     }
-    case 'T': {
-      n->kind = N_TRY; n->id[0] = tok_int(0, 1000000); n->nf[0] = tok_int(0, 3);
+    case 'T': case 'N': {
+      n->kind = N_TRY; n->id[0] = tok_int(0, 1000000);
+      n->cnt = t[0] is 'N' ? tok_int(1, 2040) : 1;
+      n->nf[0] = tok_int(0, MAXF);
+      if (n->nf[0] is 4 or n->nf[0] is 6 or n->nf[0] is 7) { harness_bug("tree: no try site of this filter arity"); }
       for (int i = 0; i < n->nf[0]; i++) { n->f[0][i] = tok_int(0, NKINDS - 1); }
       if (nkids + 2 > POOL) { harness_bug("tree: too many children"); }
       n->nkid = 2; n->kid = &kids[nkids]; nkids += 2;
@@ -139,6 +162,7 @@ static Node* parse(void) {
       break;
     }
     case 'X': n->kind = N_THROW; n->k = tok_int(0, NKINDS - 1); break;
+    case 'Y': n->kind = N_THROW; n->k = tok_int(0, NKINDS - 1); n->how = tok_int(1, 3); break;
     case 'M': n->kind = N_MARK; n->id[0] = tok_int(0, 1000000); break;
     case 'C': {
       n->kind = N_CALL;
@@ -176,9 +200,33 @@ static Node* parse_line(char* text) {
 /* ---- interpreter ----------------------------------------------------------------------- */
 static void run(Node* n);
 
-static void do_throw(int k) {
+static char longmsg[6001];
+
+/* raise K[k] from inside a library function (the exception object is the library's own global) */
+__attribute__((noinline)) static void lib_raise(int k) {
+  switch (k) {
+    case 0: { var f = new(File); assign(f, $I(1)); break; }                       /* TypeError: no Assign, types differ */
+    case 1: { var t = new(Table, Int, Int); set(t, $I(1), $I(2)); get(t, $I(7)); break; }   /* KeyError */
+    case 2: { cast($I(1), String); break; }                                       /* ValueError */
+    case 3: { var f = new(File); stell(f); break; }                               /* IOError: File not open */
+    case 7: { var a = new(Array, Int, $I(1)); get(a, $I(3)); break; }             /* IndexOutOfBoundsError */
+    case 8: { len($I(1)); break; }                                                /* ClassError: Int has no Len */
+    case 9: { var s = new(String, $S("")); print_to(s, 0, "%i"); break; }         /* FormatError: missing argument */
+    default: harness_bug("tree: no library function raises this kind");
+  }
+  emitf("library-call-returned\n");
+}
+
+static void do_throw(int k, int how) {
   last_thrown = K[k];
-  throw(K[k], "kind %i thrown", $I(k));
+  if (how is 1) { lib_raise(k); return; }
+  if (how >= 2) {
+    size_t l = how is 2 ? 300 : 6000;
+    memset(longmsg, 'm', l); longmsg[l] = 0;
+    throw(K[k], "kind %i thrown: %s", $I(k), $S(longmsg));
+  } else {
+    throw(K[k], "kind %i thrown", $I(k));
+  }
   emitf("throw-returned\n");
 }
 
@@ -189,59 +237,101 @@ __attribute__((noinline)) static void call_tree(Node* n) {
   pad[1] = pad[95];
 }
 
-/* one real try/catch site per filter arity */
-__attribute__((noinline)) static void try0(Node* n) {
-  PRE(n->id[0]);
+/* One real try/catch site per filter arity.  A Try node with cnt > 1 re-enters its site from its own body
+ * (level + 1) until cnt blocks are open, then runs the body subtree; every level has the node's handler. */
+static void enter(Node* n, int level);
+static void body(Node* n, int level) {
+  if (level + 1 < n->cnt) { enter(n, level + 1); } else { run(n->kid[0]); }
+}
+
+__attribute__((noinline)) static void try0(Node* n, int level) {
+  PRE(n->id[0] + level);
   try {
-    run(n->kid[0]);
+    body(n, level);
   } catch (e) {
-    HANDLER(n->id[0], e);
+    HANDLER(n->id[0] + level, e);
     run(n->kid[1]);
   }
-  POST(n->id[0]);
+  POST(n->id[0] + level);
 }
 
-__attribute__((noinline)) static void try1(Node* n) {
+__attribute__((noinline)) static void try1(Node* n, int level) {
   var f0 = K[n->f[0][0]];
-  PRE(n->id[0]);
+  PRE(n->id[0] + level);
   try {
-    run(n->kid[0]);
+    body(n, level);
   } catch (e in f0) {
-    HANDLER(n->id[0], e);
+    HANDLER(n->id[0] + level, e);
     run(n->kid[1]);
   }
-  POST(n->id[0]);
+  POST(n->id[0] + level);
 }
 
-__attribute__((noinline)) static void try2(Node* n) {
+__attribute__((noinline)) static void try2(Node* n, int level) {
   var f0 = K[n->f[0][0]]; var f1 = K[n->f[0][1]];
-  PRE(n->id[0]);
+  PRE(n->id[0] + level);
   try {
-    run(n->kid[0]);
+    body(n, level);
   } catch (e in f0, f1) {
-    HANDLER(n->id[0], e);
+    HANDLER(n->id[0] + level, e);
     run(n->kid[1]);
   }
-  POST(n->id[0]);
+  POST(n->id[0] + level);
 }
 
-__attribute__((noinline)) static void try3(Node* n) {
+__attribute__((noinline)) static void try3(Node* n, int level) {
   var f0 = K[n->f[0][0]]; var f1 = K[n->f[0][1]]; var f2 = K[n->f[0][2]];
-  PRE(n->id[0]);
+  PRE(n->id[0] + level);
   try {
-    run(n->kid[0]);
+    body(n, level);
   } catch (e in f0, f1, f2) {
-    HANDLER(n->id[0], e);
+    HANDLER(n->id[0] + level, e);
     run(n->kid[1]);
   }
-  POST(n->id[0]);
+  POST(n->id[0] + level);
+}
+
+__attribute__((noinline)) static void try5(Node* n, int level) {
+  var f0 = K[n->f[0][0]]; var f1 = K[n->f[0][1]]; var f2 = K[n->f[0][2]]; var f3 = K[n->f[0][3]]; var f4 = K[n->f[0][4]];
+  PRE(n->id[0] + level);
+  try {
+    body(n, level);
+  } catch (e in f0, f1, f2, f3, f4) {
+    HANDLER(n->id[0] + level, e);
+    run(n->kid[1]);
+  }
+  POST(n->id[0] + level);
+}
+
+__attribute__((noinline)) static void try8(Node* n, int level) {
+  var f0 = K[n->f[0][0]]; var f1 = K[n->f[0][1]]; var f2 = K[n->f[0][2]]; var f3 = K[n->f[0][3]];
+  var f4 = K[n->f[0][4]]; var f5 = K[n->f[0][5]]; var f6 = K[n->f[0][6]]; var f7 = K[n->f[0][7]];
+  PRE(n->id[0] + level);
+  try {
+    body(n, level);
+  } catch (e in f0, f1, f2, f3, f4, f5, f6, f7) {
+    HANDLER(n->id[0] + level, e);
+    run(n->kid[1]);
+  }
+  POST(n->id[0] + level);
+}
+
+static void enter(Node* n, int level) {
+  switch (n->nf[0]) {
+    case 0: try0(n, level); break;
+    case 1: try1(n, level); break;
+    case 2: try2(n, level); break;
+    case 3: try3(n, level); break;
+    case 5: try5(n, level); break;
+    default: try8(n, level); break;
+  }
 }
 
 /* A slot of a lexical template: a plain Throw is thrown right here, lexically inside the
  * function holding the nested try blocks; anything else is interpreted. */
 #define SLOT(I) do { \
     Node* s_ = n->kid[I]; \
-    if (s_->kind is N_THROW) { \
+    if (s_->kind is N_THROW and s_->how is 0) { \
       last_thrown = K[s_->k]; \
       throw(K[s_->k], "kind %i thrown", $I(s_->k)); \
       emitf("throw-returned\n"); \
@@ -357,16 +447,9 @@ static void run(Node* n) {
   switch (n->kind) {
     case N_SEQ:   for (int i = 0; i < n->nkid; i++) { run(n->kid[i]); } break;
     case N_MARK:  emitf("mark %d\n", n->id[0]); break;
-    case N_THROW: do_throw(n->k); break;
+    case N_THROW: do_throw(n->k, n->how); break;
     case N_CALL:  call_tree(n); break;
-    case N_TRY:
-      switch (n->nf[0]) {
-        case 0: try0(n); break;
-        case 1: try1(n); break;
-        case 2: try2(n); break;
-        default: try3(n); break;
-      }
-      break;
+    case N_TRY:   enter(n, 0); break;
     case N_TMPL:
       switch (n->k) {
         case 1: tmpl1(n); break;
@@ -383,6 +466,28 @@ static void run_top(Node* root) {
   run(root);
   emitf("end %d\n", exc_depth());
 }
+
+/* ---- execution in another thread -------------------------------------------------------- */
+static struct { struct Header h; struct Function f; } thr_fn_s;
+static var thr_fn;
+static Node* thr_root;
+static var thr_main(var args) { run_top(thr_root); return NULL; }
+
+static void run_threaded(Node* root, int hold) {
+  if (hold > 0) {
+    try { run_threaded(root, hold - 1); } catch (e) { emitf("main-handler-ran %s\n", kname(e)); }
+    return;
+  }
+  int d0 = exc_depth();
+  thr_root = root;
+  var th = new_raw(Thread, thr_fn);
+  call(th);
+  join(th);
+  del_raw(th);
+  if (exc_depth() isnt d0) { emitf("main-depth-changed %d %d\n", d0, exc_depth()); }
+}
+
+static int fork_hold = -1;      /* >= 0: the forked child runs the tree in a thread */
 
 /* ---- forked execution ------------------------------------------------------------------ */
 typedef struct { char* p; size_t n, cap; } Buf;
@@ -406,7 +511,7 @@ static void run_forked(Node* root) {
     prctl(PR_SET_PDEATHSIG, SIGKILL);    /* never leave a spinning orphan behind */
 #endif
     alarm(20);                           /* a tree runs in microseconds; this only bounds a livelock */
-    run_top(root);
+    if (fork_hold >= 0) { run_threaded(root, fork_hold); } else { run_top(root); }
     fflush(stdout);
     _exit(0);
   }
@@ -439,6 +544,8 @@ static void run_forked(Node* root) {
     name[i] = 0;
     if (i is 0) { strcpy(name, "-"); }
   }
+  /* a sanitizer report ends the child with status 1 as well: it must not pass for the library's own exit */
+  if (strstr(err.p, "Sanitizer") or strstr(err.p, "runtime error:")) { printf("child-sanitizer-report\n"); }
   printf("child exit=%d sig=%d uncaught=%s\n",
     WIFEXITED(status) ? WEXITSTATUS(status) : -1,
     WIFSIGNALED(status) ? WTERMSIG(status) : 0, name);
@@ -449,13 +556,22 @@ static void run_forked(Node* root) {
 int main(int argc, char** argv) {
   setvbuf(stdout, NULL, _IOLBF, 0);    /* a stuck or killed case still shows how far it got */
   K[0] = TypeError; K[1] = KeyError; K[2] = ValueError; K[3] = IOError; K[4] = UserExc; K[5] = UserExcEOF; K[6] = User;
+  K[7] = IndexOutOfBoundsError; K[8] = ClassError; K[9] = FormatError;
+  thr_fn_s.f.func = thr_main; thr_fn = header_init(&thr_fn_s, Function, AllocStatic);
   if (EXIT_FAILURE isnt 1) { harness_bug("EXIT_FAILURE is not 1 on this platform"); }
   while (true) {
     char* line = rd_line();
     if (line is NULL) { break; }
     if (strcmp(line, "end") is 0) { printf("done\n"); fflush(stdout); continue; }
     if (strncmp(line, "run ", 4) is 0) { run_top(parse_line(line + 4)); }
-    else if (strncmp(line, "fork ", 5) is 0) { run_forked(parse_line(line + 5)); }
+    else if (strncmp(line, "fork ", 5) is 0) { fork_hold = -1; run_forked(parse_line(line + 5)); }
+    else if (strncmp(line, "trun ", 5) is 0 or strncmp(line, "tfork ", 6) is 0) {
+      char* p = line + (line[1] is 'r' ? 5 : 6);
+      int hold = (int)strtol(p, &p, 10);
+      if (hold < 0 or hold > 8 or *p isnt ' ') { harness_bug("bad hold count"); }
+      if (line[1] is 'r') { run_threaded(parse_line(p + 1), hold); }
+      else { fork_hold = hold; run_forked(parse_line(p + 1)); fork_hold = -1; }
+    }
     else if (line[0] is 0) { continue; }
     else { harness_bug("unknown command"); }
   }
